@@ -137,6 +137,7 @@ def check(run):
 
     ob_fa1_phase1(run, "O17.5")
     ob_decay_cap(run, "O17.6")
+    ob_committee_size(run, "O17.7")
 
 
 def ob_fa1_phase1(run, oid):
@@ -311,3 +312,49 @@ def ob_decay_cap(run, oid):
 def D_extra(prog, b, bb, rec):
     from . import detectors as DET
     return DET.extra_guards(prog, b, bb, rec)
+
+
+def ob_committee_size(run, oid):
+    """exactly k seats: structural part for the samplers that assemble a committee from several sources"""
+    prog = run.program("lib")
+    o = run.ob(oid, "FA2 fills the committee up to k counting what is already in it AFTER the medium-node coin flips; samplers keep the validator list they were given (index = id)",
+               "a fill count taken before the coin flips yields k + (number of successful coins) seats; a filtered / reordered validator list shifts every later validator's "
+               "index, so a zero-weight validator is drawn under another one's position", floor=5)
+    sqs = [x for d, x in prog.bodies.items() if d.startswith("<" + SS + "FaitAccompli2Sampler as ") and d.endswith("QuorumSamplingStrategy>::sample_quorum")]
+    if not sqs:
+        o.missing("FaitAccompli2Sampler::sample_quorum")
+    for b in sqs:
+        med = [c for c in b.calls() if c.name.rsplit("::", 1)[-1] == "next" and K.mentions_field(b.operand_term(c.args[0]), "medium_nodes")]
+        fb = [c for c in b.calls() if c.name.endswith("SamplingStrategy>::sample") and K.mentions_field(b.operand_term(c.args[0]), "fallback_sampler")]
+        lens = [c for c in b.calls() if c.name.endswith("Vec::len")]
+        ok = len(med) == 1 and bool(fb) and bool(lens)
+        if ok:
+            after = lambda bb: any(a[0] == "is_some" and a[2] is False and K.mentions(a[1][0], lambda x: x[0] == "call" and len(x) > 3 and x[3] == med[0].bb) for a in G.guard_atoms(b, bb, prog))
+            # every length read that can influence the number of fallback draws happens after the medium loop ended
+            ok = all(after(c.bb) for c in lens) and all(after(c.bb) for c in fb)
+        o.check(ok, "FaitAccompli2Sampler::sample_quorum|fill-after-coins", "result.len() is read (and the fallback drawn) only after the medium-node loop has finished", b.span)
+        o.check(any(K.mentions_field(t, "k") for c in b.calls() for t in [b.operand_term(a) for a in c.args]) or any(K.mentions_field(b.operand_term(o2), "k") for (bb, rv, sp, dst) in b.aggregates("core::ops::range::Range") for o2 in rv["ops"]),
+                "FaitAccompli2Sampler::sample_quorum|fills-to-k", "the fill bound is self.k", b.span)
+    # constructors keep the validator list intact
+    NARROW = ("retain", "retain_mut", "sort", "sort_by", "sort_by_key", "sort_unstable", "sort_unstable_by", "sort_unstable_by_key", "dedup", "dedup_by", "dedup_by_key", "remove", "swap_remove",
+              "truncate", "drain", "reverse", "rotate_left", "rotate_right", "shuffle", "pop", "split_off", "clear", "insert", "swap", "extract_if")
+    n = 0
+    for d, b in sorted(prog.bodies.items()):
+        if b.generated or not d.startswith(SS) or "::{closure" in d:
+            continue
+        for (bb, rv, sp, dst) in [x for x in b.aggregates() if str(x[1].get("adt", "")).startswith(SS) and "validators" in x[1].get("fields", [])]:
+            n += 1
+            vt = b.operand_term(dict(zip(rv["fields"], rv["ops"]))["validators"])
+            pv = b.provenance(vt, depth=6)
+            pnames = set(b.local_name(i) for i in range(1, b.argc + 1))
+            src_params = pv["params"] & pnames
+            bad = []
+            for c in b.calls():
+                if c.name.rsplit("::", 1)[-1] in NARROW and c.args:
+                    t0 = b.operand_term(c.args[0])
+                    if set(b.provenance(t0)["params"]) & src_params and not K.mentions_call(t0, "clone"):
+                        bad.append((c.name.rsplit("::", 1)[-1], c.span))
+            narrowed = [x.rsplit("::", 1)[-1] for x in pv["calls"] if x.rsplit("::", 1)[-1] in ("filter", "filter_map", "skip", "take", "rev", "step_by", "skip_while", "take_while", "dedup", "sorted")]
+            o.check(bool(src_params) and not bad and not narrowed, "%s|keeps-validator-list" % fshort(d), "the stored validator list is the one passed in: not filtered, reordered or shortened (index == validator id)", sp,
+                    {"mutations": bad, "narrowing": narrowed})
+    o.check(n >= 2, "constructors|found", "%d sampler constructors storing a validator list examined" % n, "")
